@@ -113,7 +113,12 @@ func (st *State) symbolic(t types.Type, name string, prov func(ls leafShape) *Pr
 			out = vPtr(n, p)
 			// user-space addresses; the object a pointer parameter refers to (less than 16 MB) lies below
 			// the first address the model's allocator hands out, so it never overlaps a fresh allocation
-			st.assume(app("bvult", n, bvLit(maxAddr-(1<<24), 64)))
+			if input {
+				st.assume(app("bvult", n, bvLit(maxAddr-(1<<24), 64)))
+			} else {
+				// results of calls and loop-carried pointers may be objects allocated during the call
+				st.assume(app("bvult", n, bvLit(uint64(1)<<63, 64)))
+			}
 		default:
 			st.decl(n, sortBV(ls.W))
 			out = vBV(n, ls.W, ls.Signed)
@@ -123,7 +128,9 @@ func (st *State) symbolic(t types.Type, name string, prov func(ls leafShape) *Pr
 		}
 		return out
 	})
+	st.invInput = input
 	st.typeInv(v, t)
+	st.invInput = false
 	return v
 }
 
@@ -138,6 +145,12 @@ func (st *State) typeInv(v V, t types.Type) {
 		}
 		st.assume(and(app("bvsle", bvLit(0, 64), l.T), app("bvsle", l.T, c.T), app("bvult", c.T, bvLit(maxLen, 64))))
 		sp := spaceOf(p, "")
+		if !st.invInput {
+			// a value produced during the call may live in memory allocated during it
+			st.assume(app("bvult", p.T, bvLit(uint64(1)<<63, 64)))
+			st.assume(implies(eq(p.T, bvLit(0, 64)), eq(c.T, bvLit(0, 64))))
+			break
+		}
 		st.assume(app("bvult", p.T, bvLit(maxAddr, 64)))
 		st.assume(implies(eq(p.T, bvLit(0, 64)), eq(c.T, bvLit(0, 64))))
 		if sp == "B" || sp == "H" {
@@ -149,6 +162,10 @@ func (st *State) typeInv(v V, t types.Type) {
 		if u.Kind() == types.String {
 			p, l := v.Fs[0], v.Fs[1]
 			st.assume(and(app("bvsle", bvLit(0, 64), l.T), app("bvult", l.T, bvLit(maxLen, 64))))
+			if !st.invInput {
+				st.assume(app("bvult", p.T, bvLit(uint64(1)<<63, 64)))
+				break
+			}
 			st.assume(app("bvult", p.T, bvLit(maxAddr, 64)))
 			if brk, ok := st.brk["B"]; ok {
 				st.assume(app("bvule", bvadd(p.T, l.T), brk))
@@ -811,6 +828,8 @@ func (x *Exec) loopEnv(st *State, fr *Frame, ld *loopDesc) *CEnv {
 			}
 		}
 	}
+	// contract calls of the current iteration: called_<name>, call_<name>_arg<i>, call_<name>_r<i>
+	x.bindCallRecords(st, fr.fn, vars, fr.lastCall)
 	_, tp := x.contractFor(fr.fn)
 	if fr.depth == 0 {
 		tp = x.tparam
@@ -866,6 +885,23 @@ func (x *Exec) checkLoop(st *State, fr *Frame, ld *loopDesc, spec *LoopSpec, ent
 		}
 		x.oblige(ps, name, "invariant", x.tagsOr(inv.Tags, fr), t, x.posOf(ld.pos), inv.Text)
 	}
+	if !entry {
+		for i, sc := range spec.Steps {
+			name := x.oname(fr, fmt.Sprintf("loop%d.step%d", ld.ordinal, i+1))
+			ps, penv := st, env
+			if fidx >= 0 {
+				ps = st.fork()
+				penv = x.loopEnv(ps, ps.frames[fidx], ld)
+				penv.prove = true
+			}
+			t, err := penv.evalBool(sc.Expr)
+			if err != nil {
+				x.genFail(name, "invariant", sc.Tags, x.posOf(ld.pos), err.Error())
+				continue
+			}
+			x.oblige(ps, name, "invariant", x.tagsOr(sc.Tags, fr), t, x.posOf(ld.pos), "each iteration: "+sc.Text)
+		}
+	}
 	if !entry && spec.Decreases != nil {
 		rec := fr.loopRec[ld.head]
 		name := x.oname(fr, fmt.Sprintf("loop%d.decreases", ld.ordinal))
@@ -883,6 +919,89 @@ func (x *Exec) checkLoop(st *State, fr *Frame, ld *loopDesc, spec *LoopSpec, ent
 		goal := and(app("bvsge", rec.measure, bvLit(0, m.W)), app("bvslt", m.T, rec.measure))
 		x.oblige(st, name, "decreases", x.tagsOr(spec.Decreases.Tags, fr), goal, x.posOf(ld.pos), "decreases "+spec.Decreases.Text)
 	}
+}
+
+// calleeShortNames lists the short names of everything fn calls statically or through an interface.
+// bindCallRecords binds called_<name>, call_<name>_arg<i> and call_<name>_r<i> for every callee of fn:
+// from the recorded calls where there was one, otherwise false and unconstrained values.
+func (x *Exec) bindCallRecords(st *State, fn *ssa.Function, vars map[string]V, recs map[string]callRec) {
+	for n, sig := range x.calleeSigs(fn) {
+		if _, called := recs[n]; called {
+			continue
+		}
+		vars["called_"+n] = vBool("false")
+		k := 0
+		if sig.Recv() != nil {
+			vars[fmt.Sprintf("call_%s_arg0", n)] = st.symbolic(sig.Recv().Type(), "nocall_"+n, nil, false)
+			k = 1
+		}
+		for i := 0; i < sig.Params().Len(); i++ {
+			vars[fmt.Sprintf("call_%s_arg%d", n, i+k)] = st.symbolic(sig.Params().At(i).Type(), "nocall_"+n, nil, false)
+		}
+		for i := 0; i < sig.Results().Len(); i++ {
+			vars[fmt.Sprintf("call_%s_r%d", n, i)] = st.symbolic(sig.Results().At(i).Type(), "nocall_"+n, nil, false)
+		}
+	}
+	for n, rec := range recs {
+		vars["called_"+n] = vBool("true")
+		for i, a := range rec.args {
+			vars[fmt.Sprintf("call_%s_arg%d", n, i)] = a
+		}
+		for i, r := range rec.results {
+			vars[fmt.Sprintf("call_%s_r%d", n, i)] = r
+		}
+	}
+}
+
+func (x *Exec) calleeSigs(fn *ssa.Function) map[string]*types.Signature {
+	out := map[string]*types.Signature{}
+	for _, b := range fn.Blocks {
+		for _, in := range b.Instrs {
+			c, ok := in.(ssa.CallInstruction)
+			if !ok {
+				continue
+			}
+			cc := c.Common()
+			if cc.IsInvoke() {
+				if sig, ok := cc.Method.Type().(*types.Signature); ok {
+					// the receiver (the interface value) is argument 0
+					rs := types.NewSignatureType(types.NewVar(token.NoPos, nil, "recv", cc.Value.Type()), nil, nil, sig.Params(), sig.Results(), sig.Variadic())
+					out[shortCallName(ifaceKey(cc.Value.Type(), cc.Method.Name()))] = rs
+				}
+			} else if f := cc.StaticCallee(); f != nil {
+				out[shortCallName(fnKey(f))] = f.Signature
+			}
+		}
+	}
+	return out
+}
+
+func (x *Exec) calleeShortNames(fn *ssa.Function) []string {
+	seen := map[string]bool{}
+	var out []string
+	for _, b := range fn.Blocks {
+		for _, in := range b.Instrs {
+			c, ok := in.(ssa.CallInstruction)
+			if !ok {
+				continue
+			}
+			cc := c.Common()
+			key := ""
+			if cc.IsInvoke() {
+				key = ifaceKey(cc.Value.Type(), cc.Method.Name())
+			} else if f := cc.StaticCallee(); f != nil {
+				key = fnKey(f)
+			}
+			if key == "" {
+				continue
+			}
+			if n := shortCallName(key); !seen[n] {
+				seen[n] = true
+				out = append(out, n)
+			}
+		}
+	}
+	return out
 }
 
 // cutLoop havocs the loop-carried state and assumes the invariant.
@@ -913,6 +1032,7 @@ func (x *Exec) cutLoop(st *State, fr *Frame, ld *loopDesc, spec *LoopSpec, phis 
 	x.havocLoop(st, fr, ld, phis, rec.mods)
 	st.loopStores = nil
 	st.loopFresh = false
+	fr.lastCall = nil // step clauses speak about the calls of one iteration
 	env := x.loopEnv(st, fr, ld)
 	{
 		henv := x.loopEnv(st, fr, ld)
